@@ -328,6 +328,12 @@ class Body:
             out |= self.reachable_from(j)
         return out
 
+    def reachable_from_succs_any(self, blocks):
+        out = set()
+        for i in blocks:
+            out |= self.reachable_from_succs(i)
+        return out
+
     def must_pass(self, start, pred_block, avoid_start=False):
         """True iff every path from block `start` to a normal return passes a
         block satisfying pred_block (start itself counts unless avoid_start)."""
